@@ -83,7 +83,16 @@ def gen_cons(rnd, idx, force_sat=None):
         costs = rnd.random() < 0.4
         stmts.append(" or ".join("{ " + " ".join(pr.expr(a) + ";" for a in blk) + " }" + (" [%d.0]" % rnd.randint(1, 9) if costs else "") for blk in blocks))
     return {"family": "cons", "id": "cons-%d" % idx, "text": _layout(rnd, stmts), "reals": reals, "bools": bools, "kinds": kinds,
-            "cons": cons, "planted": planted if sat_mode else None}
+            "cons": cons, "planted": planted if sat_mode else None, "parts": _two_parts(rnd, len(decls), stmts)}
+
+
+def _two_parts(rnd, ndecl, stmts):
+    """the same program as two scripts: declarations and some of the constraints, then the rest (incremental reading)"""
+    body = stmts[ndecl:]
+    if len(body) < 2:
+        return None
+    k = rnd.randint(1, len(body) - 1)
+    return ["\n".join(stmts[:ndecl + k]) + "\n", "\n".join(body[k:]) + "\n"]
 
 
 def gen_pin(rnd, idx):
@@ -254,7 +263,7 @@ def gen_tp(rnd, idx):
     rnd.shuffle(decls)
     stmts = decls + [pr.expr(e) + ";" for e in cons]
     return {"family": "tp", "id": "tp-%d" % idx, "text": _layout(rnd, stmts), "reals": tps, "bools": bools, "kinds": {v: "tp" for v in tps},
-            "cons": cons, "planted": planted if sat_mode else None}
+            "cons": cons, "planted": planted if sat_mode else None, "parts": _two_parts(rnd, len(decls), stmts)}
 
 
 def equivalent_variant(rnd, case):
